@@ -474,7 +474,9 @@ class Visitor(ast.NodeVisitor):
             assert isinstance(key, ast.AST)
             assert isinstance(val, ast.AST)
 
-            recomputed_dict[self.visit(node=key)] = self.visit(node=val)
+            # The key is evaluated before the value, as Python does.
+            recomputed_key = self.visit(node=key)
+            recomputed_dict[recomputed_key] = self.visit(node=val)
 
         # Please see "NOTE ABOUT PLACEHOLDERS AND RE-COMPUTATION"
         if any(
